@@ -7,7 +7,7 @@
 (* actions are the POSIX meaning of the calls.                             *)
 (*                                                                         *)
 (* Trace records (ndjson, IOEnv.TRACE):                                    *)
-(*  {ev:"reset", run, mode:"backup"|"plain"|"readonly", n, changed:[..]}   *)
+(*  {ev:"reset", run, mode:"backup"|"plain"|"readonly", n, changed:[..], disk0:[..]}   *)
 (*  {ev:"trunc", i, name}   open(O_TRUNC|O_CREAT) of name of file i        *)
 (*  {ev:"write", i, name, complete: b}  data written; complete = the file  *)
 (*                           now holds the whole formatted text             *)
@@ -19,21 +19,22 @@ EXTENDS Naturals, Sequences, FiniteSets, TLC, Json, IOUtils
 
 Rec == ndJsonDeserialize(IOEnv.TRACE)
 
-VARIABLES l, mode, n, changed, disk, ended
+VARIABLES l, mode, n, changed, disk0, disk, ended
 
-vars == <<l, mode, n, changed, disk, ended>>
+vars == <<l, mode, n, changed, disk0, disk, ended>>
 
 Fresh == [f |-> "orig", tmp |-> "absent", bk |-> "absent"]
 
 Init ==
-  /\ l = 1 /\ mode = "none" /\ n = 0 /\ changed = <<>> /\ disk = <<>> /\ ended = TRUE
+  /\ l = 1 /\ mode = "none" /\ n = 0 /\ changed = <<>> /\ disk0 = <<>> /\ disk = <<>> /\ ended = TRUE
 
 IsEv(e) == l <= Len(Rec) /\ Rec[l].ev = e /\ l' = l + 1
 
 Reset ==
   /\ IsEv("reset")
   /\ mode' = Rec[l].mode /\ n' = Rec[l].n /\ changed' = Rec[l].changed
-  /\ disk' = [i \in 1 .. Rec[l].n |-> Fresh]
+  /\ disk0' = [i \in 1 .. Rec[l].n |-> Rec[l].disk0[i]]
+  /\ disk' = disk0'
   /\ ended' = FALSE
 
 Get(d, name) == IF name = "f" THEN d.f ELSE IF name = "tmp" THEN d.tmp ELSE d.bk
@@ -44,30 +45,30 @@ Put(d, name, c) ==
 Trunc ==
   /\ IsEv("trunc") /\ ~ended
   /\ disk' = [disk EXCEPT ![Rec[l].i] = Put(@, Rec[l].name, "partial")]
-  /\ UNCHANGED <<mode, n, changed, ended>>
+  /\ UNCHANGED <<mode, n, changed, disk0, ended>>
 
 Write ==
   /\ IsEv("write") /\ ~ended
   /\ disk' = [disk EXCEPT ![Rec[l].i] =
                  Put(@, Rec[l].name, IF Rec[l].complete THEN "new" ELSE "partial")]
-  /\ UNCHANGED <<mode, n, changed, ended>>
+  /\ UNCHANGED <<mode, n, changed, disk0, ended>>
 
 Rename ==
   /\ IsEv("rename") /\ ~ended
   /\ LET i == Rec[l].i
          src == Get(disk[i], Rec[l].from)
      IN disk' = [disk EXCEPT ![i] = Put(Put(@, Rec[l].to, src), Rec[l].from, "absent")]
-  /\ UNCHANGED <<mode, n, changed, ended>>
+  /\ UNCHANGED <<mode, n, changed, disk0, ended>>
 
 Unlink ==
   /\ IsEv("unlink") /\ ~ended
   /\ disk' = [disk EXCEPT ![Rec[l].i] = Put(@, Rec[l].name, "absent")]
-  /\ UNCHANGED <<mode, n, changed, ended>>
+  /\ UNCHANGED <<mode, n, changed, disk0, ended>>
 
 End ==
   /\ IsEv("end") /\ ~ended
   /\ ended' = TRUE
-  /\ UNCHANGED <<mode, n, changed, disk>>
+  /\ UNCHANGED <<mode, n, changed, disk0, disk>>
 
 Next == Reset \/ Trunc \/ Write \/ Rename \/ Unlink \/ End
 
@@ -80,10 +81,10 @@ OriginalRecoverable ==
 NeverPartialTarget ==
   mode = "backup" => \A i \in 1 .. n : disk[i].f \in {"absent", "orig", "new"}
 (* C06: the read-only emitters never touch anything.                        *)
-ReadOnly == mode = "readonly" => \A i \in 1 .. n : disk[i] = Fresh
+ReadOnly == mode = "readonly" => \A i \in 1 .. n : disk[i] = disk0[i]
 (* C06: files mode touches a file only if its formatted text differs.       *)
 TouchOnlyChanged ==
-  \A i \in 1 .. n : ~changed[i] => disk[i] = Fresh
+  \A i \in 1 .. n : ~changed[i] => disk[i] = disk0[i]
 (* After a run that ended with exit 0.                                      *)
 PostState ==
   (ended /\ l > 1 /\ Rec[l - 1].ev = "end" /\ Rec[l - 1].ok /\ mode # "readonly") =>
@@ -91,7 +92,7 @@ PostState ==
         IF changed[i]
           THEN /\ disk[i].f = "new"
                /\ mode = "backup" => disk[i].bk = "orig" /\ disk[i].tmp = "absent"
-          ELSE disk[i] = Fresh
+          ELSE disk[i] = disk0[i]
 
 (* Acceptance: every line consumed.  On rejection print where it stopped.   *)
 Accepted ==
